@@ -180,7 +180,8 @@ class GPSData(BytesInterface):
             + f"{self.longitude:010.4f}"
             + (
                 "\0" * 3
-                if self.speed_knots <= 0
+                # a speed that prints as 0.0 is written the way a zero speed is (and read back)
+                if self.speed_knots < 0.05
                 # the field is exactly three characters wide
                 else f"{self.speed_knots:03.1f}"[:3]
             )
